@@ -283,12 +283,17 @@ def gen_group(rng: random.Random, tier: str) -> dict:
     val = 0
     for _ in range(rng.choice([4, 10, 25, 50])):
         t += rng.choice([0, 1, 5, 20, 100, int(rebalance_delay * 1000)])
-        kind = rng.choices(["join", "leave", "poll", "commit", "append", "stale_commit", "seek"], weights=[3, 2, 4, 3, 5, 1, 1])[0]
+        kind = rng.choices(
+            ["join", "leave", "poll", "commit", "append", "stale_commit", "seek", "co_commit"], weights=[3, 2, 4, 3, 5, 1, 1, 2]
+        )[0]
         if kind == "append":
             ops.append({"t": t, "op": "append", "key": rng.choice(keys), "val": val})
             val += 1
         elif kind == "poll":
             ops.append({"t": t, "op": "poll", "m": rng.randrange(nmem), "max": rng.choice([1, 2, 5, 100])})
+        elif kind == "co_commit":
+            # 2-3 worker entities commit for the same member at the same nanosecond (one partition each, or one partition twice)
+            ops.append({"t": t, "op": "co_commit", "m": rng.randrange(nmem), "k": rng.choice([2, 2, 3]), "mode": rng.choice(["split", "split", "same"])})
         elif kind == "seek":
             # purely local: the member rewinds / clears its own read positions, nothing is committed
             ops.append({"t": t, "op": "seek", "m": rng.randrange(nmem), "mode": rng.choice(["rewind", "clear", "drop"])})
@@ -374,6 +379,32 @@ class _Member(Entity):
                     yield from group.commit(self.name, dict(offs))
                     self.committed.update(offs)
                     hist.append({"op": "commit", "m": self.name, "t0": t0, "t1": self.now.nanoseconds, "offsets": dict(offs)})
+            elif kind == "co_commit":
+                # per-partition workers of this member commit at the same instant, each through its own entity
+                todo = {p_: o_ for p_, o_ in self.position.items() if o_ > 0}
+                if todo:
+                    workers = self.ctx["committers"]
+                    k = min(int(op.get("k", 2)), len(workers))
+                    parts = [dict() for _ in range(k)]
+                    if op.get("mode") == "same" or len(todo) == 1:
+                        top = max(todo, key=lambda p_: todo[p_])
+                        for j in range(k):
+                            parts[j][top] = max(0, todo[top] - j)  # the same partition, newest offset first
+                        todo = {top: todo[top]}
+                    else:
+                        for j, p_ in enumerate(sorted(todo)):
+                            parts[j % k][p_] = todo[p_]
+                    evs = [
+                        Event(time=self.now, event_type="do_commit", target=workers[j], context={"name": self.name, "offsets": parts[j]})
+                        for j in range(k)
+                        if parts[j]
+                    ]
+                    for p_, o_ in todo.items():
+                        self.committed[p_] = max(self.committed.get(p_, 0), o_)
+                    self.ctx["last_risky"][self.name] = "concurrent-commits"
+                    self.ctx["co_commits"] = self.ctx.get("co_commits", 0) + len(evs)
+                    hist.append({"op": "co_commit", "m": self.name, "t0": t0, "t1": t0, "parts": parts})
+                    yield 1e-6, evs  # the member itself goes on one microsecond later, when all of them are done
             elif kind == "seek":
                 # local only: no commit is sent, the group's committed offsets must not move
                 if self.position:
@@ -399,6 +430,18 @@ class _Member(Entity):
                     hist.append({"op": "stale_commit", "m": self.name, "t0": t0, "t1": self.now.nanoseconds, "offsets": dict(offs)})
             op = self.backlog.pop(0) if self.backlog else None
         self.busy = False
+        return None
+
+
+class _Committer(Entity):
+    """A worker that commits offsets on behalf of a group member (its own entity, its own handler)."""
+
+    def __init__(self, name, ctx):
+        super().__init__(name)
+        self.ctx = ctx
+
+    def handle_event(self, event):
+        yield from self.ctx["group"].commit(event.context["name"], dict(event.context["offsets"]))
         return None
 
 
@@ -458,6 +501,7 @@ def run_group(case: dict) -> Result:
     ctx = {"group": group, "log": log, "hist": [], "appended": []}
     members = [_Member(f"m{i}", ctx) for i in range(case["n_members"])]
     ctx["last_risky"] = {}
+    ctx["committers"] = [_Committer(f"w{j}", ctx) for j in range(3)]
     for i in case.get("live_dict_members", []):
         if i < len(members):
             members[i].live_dict = True
@@ -466,7 +510,7 @@ def run_group(case: dict) -> Result:
     t_last = ops[-1]["t"] if ops else 1
     per_op_ms = int(1000 * (case["rebalance_delay"] + case["poll_latency"])) + 2
     end_ms = t_last + per_op_ms * (len(ops) + 2) + 100
-    sim = Simulation(entities=[log, group, prod, *members], end_time=Instant(end_ms * MS))
+    sim = Simulation(entities=[log, group, prod, *members, *ctx["committers"]], end_time=Instant(end_ms * MS))
     for op in ops:
         target = prod if op["op"] == "append" else members[op["m"]]
         sim.schedule(Event(time=Instant(op["t"] * MS), event_type="op", target=target, context={"op": op}))
@@ -487,6 +531,8 @@ def run_group(case: dict) -> Result:
                     risky = ctx["last_risky"].get(m)
                     if risky == "local-seek":
                         shp = "after-local-change-of-the-dict-passed-to-commit/no-commit-sent"
+                    elif risky == "concurrent-commits":
+                        shp = "after-several-commits-of-one-member-at-one-instant"
                     elif ctx.get("stale_commit_sent"):
                         shp = "after-stale-or-duplicated-commit"
                     else:
